@@ -131,6 +131,20 @@ func init() {
 		name: "GoDurationsBucket", file: "faststats/rolling_percentile.go", recv: "durationsBucket", funcs: []string{"Durations", "clear", "addDuration"},
 		imports: []string{"CircuitModel.GoRollingPercentilePrims"}, open: []string{"CM", "CM.Go", "CM.GoRP", "CM.GoRP.D"}, vars: "", monad: "SLM", types: rpTypes,
 	}
+	never := []string{"Success", "ErrFailure", "ErrTimeout", "ErrBadRequest", "ErrInterrupt", "ErrConcurrencyLimitReject", "ErrShortCircuit", "Opened", "Closed"}
+	units["GoNeverOpens"] = &unit{name: "GoNeverOpens", file: "closers.go", recv: "neverOpens", funcs: append([]string{"Prevent", "ShouldOpen"}, never...),
+		imports: []string{"CircuitModel.GoLiveLogicPrims"}, open: []string{"CM", "CM.Go", "CM.GoNever"}, vars: "", monad: "NM", types: consumerTypes}
+	units["GoNeverCloses"] = &unit{name: "GoNeverCloses", file: "closers.go", recv: "neverCloses", funcs: append([]string{"Allow", "ShouldClose"}, never...),
+		imports: []string{"CircuitModel.GoLiveLogicPrims"}, open: []string{"CM", "CM.Go", "CM.GoNever"}, vars: "", monad: "NM", types: consumerTypes}
+	units["GoHOpenerCfg"] = &unit{name: "GoHOpenerCfg", file: "closers/hystrix/opener.go", recv: "Opener", funcs: []string{"SetConfigThreadSafe", "Config"},
+		imports: []string{"CircuitModel.GoLiveLogicPrims"}, open: []string{"CM", "CM.Go", "CM.GoHOpenerCfg"}, vars: "", monad: "OCM",
+		types: map[string]string{"ConfigureOpener": "ConfigureOpener"}}
+	units["GoHCloserCfg"] = &unit{name: "GoHCloserCfg", file: "closers/hystrix/closer.go", recv: "Closer", funcs: []string{"SetConfigThreadSafe", "SetConfigNotThreadSafe", "Config"},
+		imports: []string{"CircuitModel.GoLiveLogicPrims"}, open: []string{"CM", "CM.Go", "CM.GoHCloserCfg"}, vars: "", monad: "CCM",
+		types: map[string]string{"ConfigureCloser": "ConfigureCloser"}}
+	units["GoSloCfg"] = &unit{name: "GoSloCfg", file: "metrics/responsetimeslo/responsetime.go", recv: "Tracker", funcs: []string{"SetConfigThreadSafe", "Config"},
+		imports: []string{"CircuitModel.GoLiveLogicPrims"}, open: []string{"CM", "CM.Go", "CM.GoSloCfg"}, vars: "", monad: "SCM",
+		types: map[string]string{"Config": "SloConfig"}}
 	units["GoSortedDurations"] = &unit{
 		name: "GoSortedDurations", file: "faststats/rolling_percentile.go", recv: "SortedDurations", funcs: []string{"Mean", "Min", "Max", "Percentile"},
 		recvParam: "List I64",
